@@ -47,7 +47,7 @@ type lintFunction struct {
 }
 
 func runC05(c *core.Ctx) {
-	c.Explanation = "Cross-table agreement, decided by extracting both sides' compiled tables from typed syntax and SSA and comparing them cell by cell (nothing is executed): (ref.stmt) the scope sets in which the linter admits restart / error / synthetic / esi equal the scope sets in which the simulator executes them; (ref.return) every return(action) the linter admits in a scope has a successor in the simulator's transition function (the table extracted for C06); (ref.func) every built-in the linter knows exists in the simulator's function table with at least the linter's scopes, every arity the linter admits is accepted by the simulator's validator and every argument kind agrees with the simulator's argument table (STRING parameters accept anything the simulator stringifies); (ref.var) for every predefined variable × {get,set,unset} × scope the linter admits, the simulator's variable object for that scope has a case, pattern or prefix for the name somewhere along its Get/Set/Unset chain — absence means the access can only end in the `undefined variable` error; (ref.vartype) where the simulator's case returns a value of statically known kind it is the kind the linter promises; (ref.op) for every assignment operator × left kind × right kind × {literal, variable} the linter's type switch admits, a partial evaluation of the simulator's implementation with the kinds bound finds a path that returns no error. Necessary for: what lints clean does not fail in the simulator as undefined, out of scope, mistyped or with a wrong arity. (ref.multiscope) the accessors of the linter context (Get, Set, Unset, GetFunction) admit an access only when `Scopes & current == current` (every annotated scope allows it), not on mere overlap."
+	c.Explanation = "Cross-table agreement, decided by extracting both sides' compiled tables from typed syntax and SSA and comparing them cell by cell (nothing is executed): (ref.stmt) the scope sets in which the linter admits restart / error / synthetic / esi equal the scope sets in which the simulator executes them; (ref.return) every return(action) the linter admits in a scope has a successor in the simulator's transition function (the table extracted for C06); (ref.func) every built-in the linter knows exists in the simulator's function table with at least the linter's scopes, every arity the linter admits is accepted by the simulator's validator and every argument kind agrees with the simulator's argument table (STRING parameters accept anything the simulator stringifies); (ref.var) for every predefined variable × {get,set,unset} × scope the linter admits, the simulator's variable object for that scope has a case, pattern or prefix for the name somewhere along its Get/Set/Unset chain — absence means the access can only end in the `undefined variable` error; (ref.vartype) where the simulator's case returns a value of statically known kind it is the kind the linter promises; (ref.settype) the storage a Set arm hands to doAssign has the kind the linter declares settable for that variable; (ref.op) for every assignment operator × left kind × right kind × {literal, variable} the linter's type switch admits, a partial evaluation of the simulator's implementation with the kinds bound finds a path that returns no error. Necessary for: what lints clean does not fail in the simulator as undefined, out of scope, mistyped or with a wrong arity. (ref.multiscope) the accessors of the linter context (Get, Set, Unset, GetFunction) admit an access only when `Scopes & current == current` (every annotated scope allows it), not on mere overlap."
 	c.NotCovered = []string{"that the linter's tables equal Fastly's documentation (the bundled YAML is the reference; only the generated Go tables are compared with each other)", "values the simulator returns for a variable", "run-time failures that depend on operand values (division by zero, parse errors)"}
 	lp := c.Prog.Pkg("linter/context")
 	if lp == nil {
@@ -645,13 +645,14 @@ type nameCases struct {
 	regexps  []*regexp.Regexp
 	prefixes []string
 	kinds    map[string]map[string]bool // name -> kinds of values returned under its case (Get only)
+	setKinds map[string]map[string]bool // name -> kinds of the storage handed to doAssign under its case (Set only)
 }
 
 func (prog5 *c05vars) cases(fn *ssa.Function) *nameCases {
 	if nc := prog5.memo[fn]; nc != nil {
 		return nc
 	}
-	nc := &nameCases{exact: map[string]bool{}, kinds: map[string]map[string]bool{}}
+	nc := &nameCases{exact: map[string]bool{}, kinds: map[string]map[string]bool{}, setKinds: map[string]map[string]bool{}}
 	prog5.memo[fn] = nc
 	// the parameter carrying the variable name
 	var nameP *ssa.Parameter
@@ -742,6 +743,14 @@ func (prog5 *c05vars) cases(fn *ssa.Function) *nameCases {
 							nc.kinds[n][k] = true
 						}
 					}
+					for n, ks := range sub.setKinds {
+						if nc.setKinds[n] == nil {
+							nc.setKinds[n] = map[string]bool{}
+						}
+						for k := range ks {
+							nc.setKinds[n][k] = true
+						}
+					}
 				}
 			}
 		}
@@ -753,6 +762,22 @@ func (prog5 *c05vars) cases(fn *ssa.Function) *nameCases {
 func (prog5 *c05vars) armKinds(fn *ssa.Function, arm *ssa.BasicBlock, name string, nc *nameCases) {
 	if len(arm.Preds) != 1 {
 		return // `case A, B:` arms are shared, kinds are recorded per single-name arm only
+	}
+	// Set: the storage assigned through doAssign(storage, operator, value)
+	for _, b := range fn.Blocks {
+		if !arm.Dominates(b) {
+			continue
+		}
+		for _, in := range b.Instrs {
+			if cal := core.StaticCallee(in); cal != nil && cal.Name() == "doAssign" {
+				if k := valueKindOf(in.(ssa.CallInstruction).Common().Args[0]); k != "" {
+					if nc.setKinds[name] == nil {
+						nc.setKinds[name] = map[string]bool{}
+					}
+					nc.setKinds[name][k] = true
+				}
+			}
+		}
 	}
 	for _, rs := range core.ReturnSites(fn) {
 		if !arm.Dominates(rs.Ret.Block()) || len(rs.Results) != 2 || !core.IsNilConst(rs.Results[1]) {
@@ -870,6 +895,32 @@ func checkVariableTables(c *core.Ctx, lp *packages.Package, lintScope map[string
 				c.Report("ref.var", key+"|"+strings.Join(missing, ","), a.pos, fmt.Sprintf("the linter accepts %s of %s in {%s} but the simulator's variable objects for those scopes have no case for it: lint-clean VCL fails at run time as undefined/unsupported", strings.ToLower(op), a.name, strings.Join(missing, ",")))
 			}
 		}
+		// kind agreement for Set: the storage the simulator assigns into has the kind the linter declares
+		if a.set != "" && a.set != "NeverType" && !a.hasWildcard {
+			want := lintToSimType[a.set]
+			kinds := map[string]bool{}
+			for _, s := range scopeNames {
+				if a.scopes&lintScope[s] == 0 || per[s]["Set"] == nil {
+					continue
+				}
+				for k := range per[s]["Set"].setKinds[a.name] {
+					kinds[k] = true
+				}
+			}
+			if want != "" && len(kinds) > 0 {
+				var ks []string
+				for k := range kinds {
+					ks = append(ks, k)
+				}
+				sort.Strings(ks)
+				key := "settype|" + a.name
+				if len(ks) == 1 && ks[0] == want {
+					c.Discharge("ref.settype", key, a.pos, want)
+				} else {
+					c.Report("ref.settype", key, a.pos, fmt.Sprintf("the linter declares %s settable as %s but the simulator assigns it into %s storage: a lint-clean `set %s` fails at run time with a type error", a.name, want, strings.Join(ks, "/"), a.name))
+				}
+			}
+		}
 		// kind agreement for Get
 		if a.get != "" && a.get != "NeverType" && !a.hasWildcard {
 			want := lintToSimType[a.get]
@@ -901,6 +952,7 @@ func checkVariableTables(c *core.Ctx, lp *packages.Package, lintScope map[string
 	}
 	c.Floor("ref.var", 500)
 	c.Floor("ref.vartype", 150)
+	c.Floor("ref.settype", 55)
 }
 
 // checkMultiScope (ref.multiscope): in a subroutine annotated with several scopes, an access is admitted only when every
